@@ -59,6 +59,9 @@ pub struct Scripted {
     pub sink: Arc<Mutex<dyn ScriptSink>>,
     /// extra handles on parameters already handed out: (index, fraction of the range)
     pub aliases: Vec<(usize, f64)>,
+    /// added to every score handed out: score ladders of a few ulps around a large value, or
+    /// infinite scores throughout (a forbidden region marked with -inf)
+    pub offset: f64,
 }
 
 pub const START_SCORE: f64 = 0.;
@@ -76,6 +79,7 @@ impl Scripted {
             st: Arc::new(Mutex::new(ScriptState { memo: std::collections::HashMap::new(), ring: std::collections::VecDeque::new(), calls: 0, best: START_SCORE, worst: START_SCORE, anchor: START_SCORE, rng: seed | 1 })),
             sink,
             aliases: vec![],
+            offset: 0.,
         }
     }
     pub fn values(&self) -> Vec<f64> {
@@ -173,6 +177,8 @@ impl State for Scripted {
                 }
             }
         };
+        // (memoised scores already carry the offset)
+        let score = if self.offset != 0. && label != 'M' { score.map(|x| x + self.offset) } else { score };
         if label != 'M' {
             if long_run {
                 st.ring.push_back((key, score));
@@ -219,6 +225,7 @@ impl Clone for Scripted {
             st: self.st.clone(),
             sink: self.sink.clone(),
             aliases: self.aliases.clone(),
+            offset: self.offset,
         }
     }
 }
